@@ -34,6 +34,8 @@ func registerExtraModels(P *Program) {
 	registerRevocationModels(P)
 	registerEncodingModels(P)
 	registerFsModels(P)
+	registerBinaryModels(P)
+	registerKeygenModels(P)
 	m := P.models
 	// cbor.Marshal: an injective structural encoding of the Go value (kinds, lengths,
 	// field names, strings, integers; gabi big.Int by magnitude, as its MarshalBinary does)
@@ -410,6 +412,134 @@ func (ex *Exec) fsGet(name string) *fsFile {
 	f := &fsFile{Exists: smt.False, Mode: smt.I64(0), HasData: smt.False}
 	ex.fs[name] = f
 	return f
+}
+
+func registerKeygenModels(P *Program) {
+	m := P.models
+	// safeprime.GenerateConcurrent: the worker pool is replaced by a channel that yields, on every
+	// receive, a fresh safe prime of the requested size (top two bits set, as prepareBytes ensures)
+	m[TargetModule+"/safeprime.GenerateConcurrent"] = func(ex *Exec, fn *ssa.Function, args []Value) (Value, bool) {
+		bits, ok := term(args[0]).ConstInt64()
+		if !ok || bits < 4 {
+			ex.unsupported("GenerateConcurrent with symbolic size")
+		}
+		ex.stubs["safeprime.GenerateConcurrent is a stub: every receive yields a fresh safe prime p (p and (p-1)/2 prime by the uninterpreted predicate) with exactly the requested number of bits and its two top bits set; scheduling, stop protocol and termination are not encoded"] = true
+		lo := new(big.Int).Mul(big.NewInt(3), smt.Pow2Big(uint(bits-2)))
+		hi := new(big.Int).Sub(smt.Pow2Big(uint(bits)), big.NewInt(1))
+		ints := &Chan{Cap: 4, Gen: func(ex *Exec) (Value, bool) {
+			p := ex.freshInt("safeprime", lo, hi)
+			ex.assume(smt.Eq(smt.Mod(p, smt.I64(2)), smt.I64(1)))
+			ex.assume(isPrime(p))
+			ex.assume(isPrime(smt.Div(p, smt.I64(2))))
+			// (p-1)/2 is an odd prime as well
+			ex.assume(smt.Eq(smt.Mod(smt.Div(p, smt.I64(2)), smt.I64(2)), smt.I64(1)))
+			return ex.newBig(BigVal{I: p}), true
+		}}
+		errs := &Chan{Cap: 4}
+		return Tuple{ints, errs}, true
+	}
+	// assume-guarantee: with param stub_pair the pair generator is replaced by its contract,
+	// which obligation C16/O1 establishes for the real code
+	m[TargetModule+"/gabikeys.generateSafePrimePair"] = func(ex *Exec, fn *ssa.Function, args []Value) (Value, bool) {
+		if ex.Ob.Param("stub_pair", 0) == 0 {
+			return nil, false
+		}
+		params := args[0].(Pointer).C.V.(*StructObj)
+		var ln int64 = -1
+		// BaseParameters is the first embedded struct; Ln is its 4th field
+		if bp, ok := params.F[0].V.(*StructObj); ok {
+			ln, _ = term(bp.F[3].V).ConstInt64()
+		}
+		if ln < 8 {
+			ex.unsupported("generateSafePrimePair stub needs a concrete Ln")
+		}
+		bits := uint(ln / 2)
+		lo := new(big.Int).Mul(big.NewInt(3), smt.Pow2Big(bits-2))
+		hi := new(big.Int).Sub(smt.Pow2Big(bits), big.NewInt(1))
+		mk := func(n string) *smt.Term {
+			p := ex.freshInt(n, lo, hi)
+			ex.assume(smt.Eq(smt.Mod(p, smt.I64(2)), smt.I64(1)))
+			ex.assume(isPrime(p))
+			ex.assume(isPrime(smt.Div(p, smt.I64(2))))
+			return p
+		}
+		pp, qq := mk("pairP"), mk("pairQ")
+		ex.assume(smt.Ne(smt.Mod(pp, smt.I64(8)), smt.Mod(qq, smt.I64(8))))
+		ex.stubs["generateSafePrimePair replaced by its contract (established by C16/O1): two safe primes of Ln/2 bits with top two bits set, different modulo 8"] = true
+		return Tuple{ex.newBig(BigVal{I: pp}), ex.newBig(BigVal{I: qq}), Iface{}}, true
+	}
+	m[commonPkg+".LegendreSymbol"] = func(ex *Exec, fn *ssa.Function, args []Value) (Value, bool) {
+		a, p := ex.argBig(args[0], "LegendreSymbol"), ex.argBig(args[1], "LegendreSymbol")
+		if a.I.IsConst() && p.I.IsConst() || (p.I.Hi != nil && p.I.Hi.BitLen() <= 16) {
+			return nil, false // small or concrete: run the real code
+		}
+		ex.stubs["common.LegendreSymbol on large symbolic operands is an uninterpreted function with values in {-1,0,1}"] = true
+		return smt.App("legendre", smt.Int, big.NewInt(-1), big.NewInt(1), a.I, p.I), true
+	}
+	const signedPkg = TargetModule + "/signed"
+	m[signedPkg+".GenerateKey"] = func(ex *Exec, fn *ssa.Function, args []Value) (Value, bool) {
+		ex.cellSeq++
+		so := ex.cellOf(ex.zero(fn.Signature.Results().At(0).Type().(*types.Pointer).Elem()))
+		_ = so
+		return Tuple{Pointer{C: &Cell{ID: ex.cellSeq, V: &Opaque{Kind: "ecdsa.PrivateKey", Data: 99}}}, Iface{}}, true
+	}
+	for _, n := range []string{"MarshalPrivateKey", "MarshalPublicKey"} {
+		m[signedPkg+"."+n] = func(ex *Exec, fn *ssa.Function, args []Value) (Value, bool) {
+			return Tuple{ex.makeSlice(byteType, 4, 4), Iface{}}, true
+		}
+	}
+	m["(*encoding/base64.Encoding).EncodeToString"] = func(ex *Exec, fn *ssa.Function, args []Value) (Value, bool) {
+		return "dnA=", true
+	}
+}
+
+func registerBinaryModels(P *Program) {
+	m := P.models
+	// little-endian 64-bit put/get as an inverse pair: the value written is remembered for the
+	// first byte cell, and read back as long as the eight cells still hold the bytes written
+	put := func(ex *Exec, fn *ssa.Function, args []Value) (Value, bool) {
+		b := args[len(args)-2].(Slice)
+		v := term(args[len(args)-1])
+		if b.Len < 8 {
+			ex.goPanic("index out of range (PutUint64)")
+		}
+		var bs [8]*smt.Term
+		for k := 0; k < 8; k++ {
+			bs[k] = smt.Mod(smt.Div(v, smt.Pow2(uint(8*k))), smt.I64(256))
+			b.A.E[b.Off+k].V = bs[k]
+		}
+		ex.u64[b.A.E[b.Off]] = u64tag{v, bs}
+		return nil, true
+	}
+	get := func(ex *Exec, fn *ssa.Function, args []Value) (Value, bool) {
+		b := args[len(args)-1].(Slice)
+		if b.Len < 8 {
+			ex.goPanic("index out of range (Uint64)")
+		}
+		if t, ok := ex.u64[b.A.E[b.Off]]; ok {
+			same := true
+			for k := 0; k < 8; k++ {
+				if b.A.E[b.Off+k].V != Value(t.bytes[k]) {
+					same = false
+				}
+			}
+			if same {
+				return t.v, true
+			}
+		}
+		r := smt.I64(0)
+		for k := 0; k < 8; k++ {
+			r = smt.Add(r, smt.Mul(term(ex.load(b.A.E[b.Off+k])), smt.Pow2(uint(8*k))))
+		}
+		return r, true
+	}
+	m["(encoding/binary.littleEndian).PutUint64"] = put
+	m["(encoding/binary.littleEndian).Uint64"] = get
+}
+
+type u64tag struct {
+	v     *smt.Term
+	bytes [8]*smt.Term
 }
 
 func registerFsModels(P *Program) {
